@@ -318,12 +318,12 @@ structure C07_ContractsFromModels (lower : String → String) (tr : Trace) (endT
   wf : WF Cfg.paper tr endT = true
   k7 : K7 Cfg.paper tr endT = true
   k3b : K3b Cfg.paper tr endT = true
-  /-- instead of K1, K2 and K6: every host's sends and `reg` / `upd` / `unreg` events are those of a disciplined, fair run of the
-  C08/C09 host machine that is not closed before the end of the window (`Bridge.HostRun`), and what its broadcast tasks send is
-  multicast -/
+  /-- instead of K1, K2 and K6: every host's sends — instant, items and destination — and `reg` / `upd` / `unreg` events are those of a
+  disciplined, fair run of the C08/C09 host machine that is not closed before the end of the window (`Bridge.HostRun`).  The
+  projection carries the route of every block (`Bridge.dstOf`: announcements, goodbyes, the close sequence and the queues' batches
+  are sent with `async_send(out)` alone, to the multicast group — generated leaves `Zc.Gen.Link`), so "what a broadcast task sends
+  is multicast" and "goodbyes are multicast" are theorems (`Bridge.AnnAt_mcast_tr`, `Bridge.byeMulticast_of_generated`). -/
   hosts : Bridge.Hosts lower tr endT
-  /-- the route of a goodbye (the machine does not model routes): TTL-0 PTRs are multicast (C11) -/
-  byeMulticast : Bridge.ByeMulticast tr
   /-- instead of K3: every browser on a never-closed host is a history of C10's scheduler that goes beyond the window, its queries
   on the wire as C13 describes (`Bridge.WireAsk`) -/
   browsers : ∀ x ∈ browses tr, neverClosed tr x.2.host = true → Bridge.BrowserRun tr endT x.1 x.2
@@ -343,7 +343,7 @@ theorem C07_convergence_from_models_partial (lower : String → String) :
   intro tr endT hc
   have hg := Bridge.Hosts_Generated lower tr endT hc.hosts
   exact C07_convergence_partial tr endT
-    ⟨hc.wf, Bridge.K1_of_hosts lower tr endT hc.hosts, Bridge.K2_of_generated lower tr endT hg hc.byeMulticast,
+    ⟨hc.wf, Bridge.K1_of_hosts lower tr endT hc.hosts, Bridge.K2_of_generated lower tr endT hg,
      Bridge.K3_of_browsers tr endT hc.browsers, Bridge.K4_of_responders lower tr endT hc.responders,
      Bridge.K5_of_cacheRuns tr endT hc.caches,
      Bridge.K6_of_generated lower tr (Bridge.Generated_K6 lower tr endT hg), hc.k7, hc.k3b⟩
@@ -375,6 +375,13 @@ example : C07_bridgeTrace.map (K6 Cfg.paper) = some true := by decide
 example : C07_bridgeTrace.map (fun tr => K2 Cfg.paper tr 3000) = some true := by decide
 /-- … and the three announcements of K1 -/
 example : C07_bridgeTrace.map (fun tr => K1 Cfg.paper tr 3000) = some true := by decide
+
+/-- … and every datagram of this history — announcements, goodbyes, the queue's batch — goes to the multicast group: the projection
+carries the blocks' routes (`Bridge.dstOf`, generated leaves `Zc.Gen.Link`) -/
+example : C07_bridgeTrace.map (fun tr => (sends tr).all (fun sd => sd.dst.isNone)) = some true := by decide
+/-- the query handler's immediate answer is the one block whose destination is an input -/
+example : Bridge.dstOf (.answer []) (some 1) = some 1 ∧ Bridge.dstOf (.task 1 none true 0) (some 1) = none
+    ∧ Bridge.dstOf (.ready true 0) (some 1) = none ∧ Bridge.dstOf (.allStep 0) (some 1) = none := by decide
 
 /-- an `update` of a registered service: `upd` at 2000, announcements at 2000 / 2225 / 2450, K1 holds — and fails if the last
 announcement is not executed (the run is still a run of the machine: K1 needs `Fair`) -/
